@@ -785,6 +785,15 @@ def streams(ctx):
                            "length-modifier and '*'/'.'/'(' tables"))
     for name, kind, exh, note, reqs in _request_sets(ctx):
         out.append(Stream(name, reqs, kind=kind, exhaustive=exh, note=note, nontrivial=nt))
+    # characters that are template syntax only to byte-level code (same low byte as % ( ) a flag, digit or type), text mode
+    import lexcommon
+    syn = "".join(c for c in ALPHABET if ord(c) < 0x80)
+    base = list(templates(2)) + ["%(key)s", "%-5.3d", "%+08.2f", "%#x", "%5%", "%*.*f", "a%sb%rc", "%(a)d%(b)s", "100%%", "%c", "%.3s|%5s"]
+    al = list(dict.fromkeys(a for t in base for a in lexcommon.trunc_aliases(t, syn)))
+    u = VALUES[0]
+    reqs = [_split_req('t', a) for a in al] + [_render_req('t', a, u) for a in al if _ok_for_random('t', a, u)]
+    out.append(Stream("truncation-aliases", reqs, kind="directed", nontrivial=(lambda r: True),
+                      note="text templates with one syntax character replaced by a letter that has the same low byte (U+01xx / U+100xx)"))
     return out
 
 
